@@ -192,10 +192,42 @@ def rule_projective_ops(fx, rep):
             core_keys = [kz1, kz2, kx, ky]
             bad = []
             present = tt.predicates(res)
+            # a comparison of two monomials a == b is classified by the exponent vector of a/b: the cross-multiplied x
+            # (y) test times a power m of Z1/Z2 is, for two finite representations with Z1 = Z2, the x (y) test itself,
+            # and otherwise a coincidence of raw values that carries no meaning (the raw X, Y comparisons are m = 2, 3)
+            if mixed:
+                du, ds, dz = {'X1': 1, 'x2': -1, 'Z1': -2}, {'Y1': 1, 'y2': -1, 'Z1': -3}, {'Z1': 1}
+            else:
+                du, ds, dz = {'X1': 1, 'Z2': 2, 'X2': -1, 'Z1': -2}, {'Y1': 1, 'Z2': 3, 'Y2': -1, 'Z1': -3}, {'Z1': 1, 'Z2': -1}
+
+            def classify(k_):
+                if not (isinstance(k_, tuple) and len(k_) == 3 and k_[0] == 'eq' and all(isinstance(x_, tuple) and x_ and x_[0] == 'lin' for x_ in k_[1:])):
+                    return None
+                d_ = dict(k_[1][1])
+                for a_, e_ in k_[2][1]:
+                    d_[a_] = d_.get(a_, 0) - e_
+                for sign in (1, -1):
+                    for cls, base_ in (('x', du), ('y', ds)):
+                        e_ = {a_: sign * v_ for a_, v_ in d_.items()}
+                        for a_, v_ in base_.items():
+                            e_[a_] = e_.get(a_, 0) - v_
+                        e_ = {a_: v_ for a_, v_ in e_.items() if v_}
+                        m_ = e_.get('Z1', 0)
+                        want_ = {a_: m_ * v_ for a_, v_ in dz.items() if m_ * v_}
+                        if e_ == want_ and m_ != 0:
+                            return cls
+                return None
+            tied = {}
             for k_ in present:
                 if k_ not in core_keys and k_ not in raw:
-                    bad.append('the equal-point test compares %r; representation independence needs %s' % (k_[1:], formx))
-            keys = core_keys + [k_ for k_ in raw if k_ in present]
+                    cls_ = classify(k_)
+                    if cls_ is None:
+                        bad.append('the equal-point test compares %r; representation independence needs %s' % (k_[1:], formx))
+                    else:
+                        tied[k_] = cls_
+            if tied and raw[2] not in present:
+                bad.append('a partially scaled comparison %r decides without the Z coordinates having been compared; representation independence needs %s' % (list(tied)[0][1:], formx))
+            keys = core_keys + [k_ for k_ in raw if k_ in present] + sorted(tied, key=repr)
 
             def kind(o):
                 if isinstance(o, Agg) and o.items == [X1, Y1, Z1]:
@@ -222,6 +254,13 @@ def rule_projective_ops(fx, rep):
                     continue
                 if mixed and env.get(raw[2]) is True and env[kz1]:
                     continue
+                if env.get(raw[2]) is True and not env[kz1] and not env[kz2]:
+                    # two finite representations with the same Z (resp. Z1 = 1 against an affine point): a raw
+                    # coordinate comparison is the cross-multiplied one
+                    if env.get(raw[0]) not in (None, env[kx]) or env.get(raw[1]) not in (None, env[ky]):
+                        continue
+                    if any(env[k_] != (env[kx] if cls_ == 'x' else env[ky]) for k_, cls_ in tied.items()):
+                        continue
                 if len(cons) != 1:
                     bad.append('for (Z1=0, other=O, x-test, y-test) = %r: %d paths' % (tuple(env[k_] for k_ in core_keys), len(cons)))
                     continue
@@ -475,6 +514,14 @@ def rule_projective_ops(fx, rep):
                             want = [Lin({'X%d' % k_: 1, 'Z%d' % k_: -2}), Lin({'Y%d' % k_: 1, 'Z%d' % k_: -3}), Lin()]
                         else:
                             want = [at('X%d' % k_), at('Y%d' % k_), at('Z%d' % k_)]
+                        # Z = 1 for the normalised elements: powers of their Z are 1
+                        ones_ = set('Z%d' % j_ for j_, kj_ in enumerate(kinds) if kj_ == 'one')
+
+                        def drop1(l_):
+                            return Lin({a_: e_ for a_, e_ in l_.t.items() if a_ not in ones_}) if isinstance(l_, Lin) else l_
+                        if isinstance(got, Agg):
+                            got = Agg([drop1(x_) for x_ in got.items], got.kind)
+                        want = [drop1(x_) for x_ in want]
                         if not (isinstance(got, Agg) and got.items == want):
                             bad.append('batch %r: element %d (%s) becomes %r, expected %r' % (kinds, k_, {'zero': 'identity', 'one': 'normalised', 'gen': 'general'}[kd], got, want))
                     if not (isinstance(out, Agg) and len(out.items) == nel):
